@@ -1464,9 +1464,12 @@ def _op_scool(self, op):
             pix[key] = self._chunk_obj(allc, dtypes, False)
         else:
             pix[key] = self._iter_chunks(use, dtypes, c.get("form") == "iterdict", f2_at)
+    # the dicts handed to create_scool are filled in the recorded insertion order
+    ins = [k for k in op.get("insert_order", order) if k in cells] or order
+    pix = {k: pix[k] for k in ins}
     if per_cell_bins:
         bins_arg = {}
-        for key in order:
+        for key in (list(reversed(ins)) if op.get("bins_reversed") else ins):
             b = base_bins.copy()
             for k, v in (cells[key].get("bin_extra") or {}).items():
                 b[k] = np.asarray(v, dtype=float)
